@@ -264,6 +264,9 @@ class SmiV2Lexer(AbstractLexer):
             lineno=t.lineno)
         # t.lexer.skip(1)
 
+    # exclusive states do not inherit the error rule
+    t_macro_error = t_choice_error = t_exports_error = t_comment_error = t_error
+
 
 class SupportSmiV1Keywords(object):
     @staticmethod
